@@ -417,7 +417,7 @@ func loadFindings(path string) *findingSet {
 
 func (fs *findingSet) match(prop, obl string) *finding {
 	for i := range fs.items {
-		if fs.items[i].prop == prop && fs.items[i].obl == obl {
+		if fs.items[i].prop == prop && (fs.items[i].obl == obl || globMatch(fs.items[i].obl, obl)) {
 			return &fs.items[i]
 		}
 	}
@@ -440,4 +440,17 @@ func writeReplay(w *World, o *Obligation, dir string, cfg RunConfig) (string, bo
 	}
 	os.WriteFile(path, []byte(b.String()), 0o644)
 	return path, confirmed
+}
+
+// globMatch: "<stmt>" in a finding's obligation name stands for the
+// source-line part of the name (a finding is identified by function and
+// clause label; reformatting the statement must not turn it into an alarm).
+func globMatch(pat, s string) bool {
+	const hole = "<stmt>"
+	i := strings.Index(pat, hole)
+	if i < 0 {
+		return false
+	}
+	pre, post := pat[:i], pat[i+len(hole):]
+	return len(s) >= len(pre)+len(post) && strings.HasPrefix(s, pre) && strings.HasSuffix(s, post)
 }
